@@ -626,12 +626,14 @@ def relink_table(ctx):
         for link in LINKS:
             for to_cache in (True, False):
                 for cache_known in (True, False):
-                    meta = Meta(is_link=(link == "symlink"), nlink=2 if link == "hardlink" else 1, inode=11,
-                                destination=("/cache/oid" if to_cache else "/elsewhere") if link == "symlink" else None)
-                    cmeta = Meta(inode=11 if to_cache else 99) if cache_known else None
-                    k, v = safe_call(lambda: _needs_relink("/ws/f", FakeCache(types), meta, cmeta, "oid"))
-                    impl.append("1" if v is True else "0" if v is False else "?")
-                    rows.append({"types": types, "link": link, "to_cache": to_cache, "cache_known": cache_known})
+                    # a symbolic link's metadata is its target's: the object it points at may have one name or several (F28)
+                    for nlink in ((1, 2, 3) if link == "symlink" else (2, 3) if link == "hardlink" else (1,)):
+                        meta = Meta(is_link=(link == "symlink"), nlink=nlink, inode=11,
+                                    destination=("/cache/oid" if to_cache else "/elsewhere") if link == "symlink" else None)
+                        cmeta = Meta(inode=11 if to_cache else 99) if cache_known else None
+                        k, v = safe_call(lambda: _needs_relink("/ws/f", FakeCache(types), meta, cmeta, "oid"))
+                        impl.append("1" if v is True else "0" if v is False else "?")
+                        rows.append({"types": types, "link": link, "to_cache": to_cache, "cache_known": cache_known})
     ans = ctx.driver.ask({"op": "needs_relink", "rows": rows})["r"]
     ctx.evaluations += len(rows)
     ctx.exhaustive["_needs_relink over %d (type list, link kind, target, cache meta) rows" % len(rows)] = True
